@@ -117,9 +117,9 @@ def unwrap_some(rng, case, atol, matched=None, far=False):
     outside the cell, and (matched=True / at random) move atoms of the planted copies that sit close to a face to the
     equivalent position just outside the opposite face.  Every displacement out of the cell is <= 0.4 A and below 80 % of
     the search length (pattern diameter + 2 atol): a legitimate description of the same crystal that the library
-    handles.  far=True additionally (i) gives whole planted copies shifted by ONE lattice vector (the same crystal; a
-    copy given that way may or may not be found - C02's matter - the C04 oracle speaks about the matches found) and
-    (ii) puts bystanders up to 1.6 cell widths outside.  Returns the number of atoms now outside [0, L)."""
+    handles.  far=True additionally (i) gives whole planted copies shifted by ONE or TWO lattice vectors (the same
+    crystal) and (ii) puts bystanders up to 1.6 cell widths outside.  Every planted copy must still be found: the
+    caller records them as expectation by construction.  Returns the number of atoms now outside [0, L)."""
     import numpy as np
     cellf = np.array(case["cell"], dtype=float)
     cinv = np.linalg.inv(cellf)
@@ -128,13 +128,12 @@ def unwrap_some(rng, case, atol, matched=None, far=False):
     n_out = 0
     pos = [np.array(v, dtype=float) for v in case["pos"]]
     if matched if matched is not None else rng.random() < 0.5:
-        # the FIRST atom of a copy is the search's starting atom: the library only looks `search length` beyond the
-        # faces, so a starting atom further out than 2 atol can lose its own copy (observed on the clean tree; a matter
-        # of C02's domain "atoms inside the cell", not of C04) - keep those within atol
+        # (until /repo 517adff a copy whose first atom - the search's starting atom - lay further out than 2 atol could
+        # be missed; since that repair every atom may lie outside by the full amount)
         lim = {}
         for grp in case["planted"]:
             for i in grp:
-                lim[i] = min(maxd, atol) if i == min(grp) else maxd
+                lim[i] = maxd
         for i in sorted(lim):
             f = pos[i].dot(cinv)
             moved = False
@@ -153,7 +152,7 @@ def unwrap_some(rng, case, atol, matched=None, far=False):
         for grp in case["planted"]:
             if rng.random() < 0.25:
                 shift = np.zeros(3)
-                shift[rng.randrange(3)] = rng.choice([1.0, -1.0])
+                shift[rng.randrange(3)] = rng.choice([1.0, -1.0, 1.0, -1.0, 2.0, -2.0])
                 for i in grp:
                     pos[i] = pos[i] + shift.dot(cellf)
                     n_out += 1
@@ -272,8 +271,12 @@ def random_case(rng, mode=None, shared=None, f=None, replace_all=None, pname=Non
                                     atol=atol, decoys=rng.random() < 0.5, boundary=boundary)
     else:
         boundary = case["info"].get("boundary")
-    n_out = unwrap_some(rng, case, atol, far=(expect is None and rng.random() < 0.5)) \
-        if (unwrapped if unwrapped is not None else rng.random() < 0.4) else 0
+    n_out = 0
+    if unwrapped if unwrapped is not None else rng.random() < 0.4:
+        n_out = unwrap_some(rng, case, atol, far=(expect is None and rng.random() < 0.5))
+        if expect is None and case["planted"]:
+            # unwrapped coordinates describe the same crystal: every planted copy must be among the matches
+            expect = {"in": [sorted(grp) for grp in case["planted"]], "out": []}
     pe, pp = case["pattern"]["elems"], case["pattern"]["pos"]
     relems, rpos, rinfo = make_replacement(rng, pe, pp, mode=mode, shared=shared, struct_elems=sorted(set(case["elems"])))
     sj = structure_json(rng, case)
@@ -393,7 +396,9 @@ def second_step(rng, inp1, res1, mode=None):
     info = dict(inp1["info"], **rinfo)
     info["step"] = 2
     info["step1"] = inp1["info"].get("step1kind", "?")
-    return {"op": "replace-c04", "sj": sj, "pj": pj, "rj": rj, "atol": inp1["atol"],
+    # a first step that replaced nothing leaves every atom in place: the planted copies are still expected
+    exp2 = (inp1.get("expect2") or inp1.get("expect")) if info["step1"] in ("absent", "f0") else None
+    return {**({"expect": exp2} if exp2 else {}), "op": "replace-c04", "sj": sj, "pj": pj, "rj": rj, "atol": inp1["atol"],
             "f": rng.choice([1.0, 1.0, 1.0, 0.5, 0.75]), "replace_all": bool(rng.random() < 0.25), "ignore": False,
             "seed": rng.randrange(1 << 30), "hints": [None, None, None], "return_num": bool(rng.random() >= 0.15), "info": info}
 
@@ -409,6 +414,8 @@ def first_step(rng):
     if kind == "absent":
         # search for something that is not there; step 2 looks for the planted pattern
         inp["pj2"] = inp["pj"]
+        if "expect" in inp:
+            inp["expect2"] = inp.pop("expect")      # the planted copies are what step 2 looks for
         e = rng.choice([x for x in SPARE_ELEMENTS if x not in inp["sj"]["types"]["elem"]])
         inp["pj"] = pattern_json([e, e], [[0, 0, 0], [Fraction(3, 2), 0, 0]])
         inp["hints"] = [None, None, None]
